@@ -796,7 +796,7 @@ def mon_c10(net, obs, opts, passive=False):
     return streams
 
 
-def mon_c11(net, obs, opts, mode):
+def mon_c11(net, obs, opts, mode, transient=False):
     """Heat duties of exchangers, consumers and circulation pumps."""
     fluid = net.fluid
     cp = lambda x: float(fluid.get_heat_capacity(x))
@@ -870,6 +870,8 @@ def mon_c11(net, obs, opts, mode):
              if bool(net[t].at[idx, "in_service"]) and (t, idx) in by_el]
     # a loop that exchanges fluid with the outside (sinks, sources, storages) also exchanges heat there: not a closed loop
     open_loop = any(has(net, t) and bool(net[t]["in_service"].any()) for t in ("sink", "source", "mass_storage"))
+    if transient:
+        return          # pipes store heat between the steps of a transient series: the loop balance is no steady-state identity
     if len(pumps) == 1 and open_loop:
         obs.count("loop_closure_not_judged_fluid_exchange")
     if len(pumps) == 1 and not has(net, "ext_grid") and not open_loop:
